@@ -38,6 +38,8 @@ class _Rng:
     def choice(self, a, size=None, replace=True, p=None):
         d = int(a)
         m = int(size)
+        if m > d and not replace:
+            raise ValueError("Cannot take a larger sample than population when 'replace=False'")   # NumPy's contract
         subs = list(itertools.combinations(range(d), m))
         self.calls += 1
         if len(subs) == 1:
@@ -340,14 +342,14 @@ def _grids(tier):
         for md in (None, 1, 2):
             for mss, msl in ((2, 1), (3, 1), (4, 2), (4, 1)):
                 for ml in (None, 2, 3):
-                    for mf in (None, 1):
+                    for mf in (None, 1, 5):
                         hps.append(dict(max_clusters=mc, max_depth=md, min_samples_split=mss, min_samples_leaf=msl, max_leaves=ml, max_features=mf))
     plan = []
     if q:
         # corners: every hyper-parameter at each of its values at least once against the others' defaults + interacting corners
         base = dict(max_clusters=3, max_depth=None, min_samples_split=2, min_samples_leaf=1, max_leaves=None, max_features=None)
         picks = [base]
-        for k, vals in dict(max_clusters=[1, 2], max_depth=[1, 2], min_samples_split=[3, 4], max_leaves=[2, 3], max_features=[1]).items():
+        for k, vals in dict(max_clusters=[1, 2], max_depth=[1, 2], min_samples_split=[3, 4], max_leaves=[2, 3], max_features=[1, 3, 7]).items():
             for v in vals:
                 picks.append(dict(base, **{k: v}))
         picks += [dict(base, min_samples_split=4, min_samples_leaf=2), dict(base, max_depth=1, max_leaves=3, max_clusters=2),
